@@ -385,6 +385,8 @@ class Translator:
                 try:
                     if mkey in self.skip:
                         raise TranslateError('excluded: the Lean text generated for it did not compile')
+                    if cname in getattr(self, 'class_interface_broken', {}):
+                        raise TranslateError(self.class_interface_broken[cname])
                     body.append(self.emit_method(mod, cname, mname, arith))
                 except TranslateError as e:
                     # a method outside the translated subset: left out together with everything that uses the operator
@@ -522,6 +524,18 @@ class Translator:
                 init = n
         if init is None:
             self.err(mod, cls, f'class {cname} has no __init__')
+        known = {'__init__', '__repr__', '__str__', '__format__'} | set(self.config['modules'].get(mod.modname, {}).get('methods', {}).get(cname, []))
+        for n in cls.body:
+            if isinstance(n, ast.FunctionDef) and n.name.startswith('__') and n.name.endswith('__') and n.name not in known:
+                # a special method (`__iadd__`, `__eq__`, `__hash__`, `__getattr__`, `__copy__` ...) changes what operators and built-ins
+                # do to every object of the class without any call naming it: the model of the class no longer covers its interface
+                msg = f'{mod.path}:{n.lineno}: special method {cname}.{n.name} is not part of the modelled interface of the class'
+                if self.config['modules'].get(mod.modname, {}).get('methods', {}).get(cname):
+                    # charged to the class's operators (and through them to whatever uses them), not to everything generated
+                    self.class_interface_broken = getattr(self, 'class_interface_broken', {})
+                    self.class_interface_broken[cname] = msg
+                else:
+                    raise TranslateError(msg)
         fields = []
         env = Env(self, mod, f'{cname}.__init__', arith)
         params = [a.arg for a in init.args.args[1:]]
